@@ -15,17 +15,18 @@ import policy_common as pc
 import runner_common as rc
 
 LEVEL = "proof"
-ENTRIES_A = ["retry", "retry", "retry.ctx"]
+ENTRIES_A = ["retry", "retry", "retry.ctx", "retrycfg"]
 OPTS_A = {"entries": ENTRIES_A, "p_budget": 0.3}
 OPTS_B = {"entries": ["policy", "policy", "policy.ctx"], "p_no_retry": 0.15}
 # RetryPolicy and the decorator are sugar over Policy without a breaker: same model, breaker = None
-OPTS_B2 = {"entries": ["retrypolicy", "retrypolicy", "retrypolicy.ctx", "decorator", "policy"], "p_no_retry": 0.0, "p_breaker": 0.0,
+OPTS_B2 = {"entries": ["retrypolicy", "retrypolicy", "retrypolicy.ctx", "decorator", "policy", "retrypolicycfg"], "p_no_retry": 0.0, "p_breaker": 0.0,
            "p_budget": 0.3, "max_attempts": [1, 2, 2, 3, 4, 5]}
 
-ALL20 = [(e, m, a) for a in (False, True) for (e, m) in
+ALL_ENTRIES = [(e, m, a) for a in (False, True) for (e, m) in
          [("retry", "call"), ("retry", "execute"), ("policy", "call"), ("policy", "execute"), ("retrypolicy", "call"),
           ("retrypolicy", "execute"), ("retry.ctx", "call"), ("policy.ctx", "call"), ("retrypolicy.ctx", "call"),
-          ("decorator", "call")]]
+          ("decorator", "call"), ("retrycfg", "call"), ("retrycfg", "execute"), ("retrypolicycfg", "call"), ("retrypolicycfg", "execute")]]
+NE = len(ALL_ENTRIES)
 
 
 def call_view(d):
@@ -87,7 +88,7 @@ def pairwise(chk, suspects):
         c["cfg"].update(has_abort=False, handler_c=False)
         base.append(s)
     for s in base:
-        for (e, m, a) in ALL20:
+        for (e, m, a) in ALL_ENTRIES:
             t = copy.deepcopy(s)
             c = t["calls"][0]
             c.update(entry=e, mode=m)
@@ -99,7 +100,7 @@ def pairwise(chk, suspects):
     obs = rc.run_impl(variants, jobs=min(16, common.NPROC))
     diffs = 0
     for i, s in enumerate(base):
-        group = obs[i * 20:(i + 1) * 20]
+        group = obs[i * NE:(i + 1) * NE]
         ref = norm(group[0][0])
         for j, g in enumerate(group):
             if g[0]["delivery"][0] == "driver_error":
@@ -110,12 +111,12 @@ def pairwise(chk, suspects):
                     a, b = ref, norm(g[0])
                     k = next((k for k in range(min(len(a[0]), len(b[0]))) if a[0][k] != b[0][k]), min(len(a[0]), len(b[0])))
                     chk.violation({"kind": "oracle", "oracle": "C12-pairwise",
-                                   "what": f"entry points {ALL20[0]} and {ALL20[j]} behave differently on the same script: at trace "
+                                   "what": f"entry points {ALL_ENTRIES[0]} and {ALL_ENTRIES[j]} behave differently on the same script: at trace "
                                            f"position {k}: {a[0][k:k + 2]} vs {b[0][k:k + 2]}; delivery {a[1][:3]} vs {b[1][:3]}",
-                                   "script": variants[i * 20], "other_script": variants[i * 20 + j],
+                                   "script": variants[i * NE], "other_script": variants[i * NE + j],
                                    "observed": group[0], "observed_other": g, "driver": "runner_driver"})
                 break
-    chk.coverage["pairwise"] = {"base_scripts": len(base), "from_disagreeing_scripts": len(base) - n - (10 if chk.tier == "quick" else 60), "entry_points": 20,
+    chk.coverage["pairwise"] = {"base_scripts": len(base), "from_disagreeing_scripts": len(base) - n - (10 if chk.tier == "quick" else 60), "entry_points": NE,
                                 "runs": len(variants), "groups_with_a_difference": diffs}
     chk.coverage["evaluations"] = chk.coverage.get("evaluations", 0) + len(variants)
     return diffs
